@@ -44,6 +44,9 @@ def one(e, base):
     elif e.get('generator') == 'cxx-idioms':
         from cxx_idioms import main as idioms
         idioms(d)
+    elif e.get('generator') == 'hoist-conditions':
+        from hoist_conditions import main as hoist
+        hoist(d)
     elif e.get('generator') == 'insert-noops':
         from insert_noops import main as noops
         noops(d)
